@@ -244,4 +244,14 @@ def deep_programs():
         for k in range(d):
             s = "(class c%d (bases) %s (field y%d int))" % (k, s, k)
         out.append("(program %s)" % s)
+    # literals whose LAST byte is one the printer escapes (NUL, \1..\3, \\, a quote), with lengths that end exactly at a 16-byte granule
+    # of the string arena, each followed by a name of 48..57 characters (whatever is stored next to the spelling differs between the
+    # two build orders): what is printed for the literal may depend on its own bytes only
+    for last in (0, 1, 2, 3, 0x5c, 0x22, 0x27):
+        ds = []
+        for ln in (8, 24, 40, 7, 9):
+            sp = (b"abcdefghijklmnopqrstuvwxyzABCDEFGHIJKLMNOPQRSTUVWXYZ"[:ln - 1] + bytes([last])).hex()
+            ds.append("(var v%d_%d int (lit int %s))" % (last, ln, sp))
+            ds.append("(var n%d_%d_%s int)" % (last, ln, "x" * (40 + (ln + last) % 10)))
+        out.append("(program %s)" % " ".join(ds))
     return out
